@@ -716,11 +716,22 @@ def real_div(x, y):
     if back is not None:
         x0, y0 = back
         return real_div(z3.simplify(x * y0), x0)
-    u = z3.Real(c.fresh_name("quot"))
+    # the quotient is an application of an uninterpreted function to (x, y), not a fresh constant:
+    # equal dividends and divisors then give equal quotients by congruence alone
+    u = _rdiv_fn()(x, y)
     c.assume(z3.Implies(y != 0, u * y == x), fact=True)
     cache[key] = (x, y, u)
     rev[u.get_id()] = (x, y)
     return u
+
+
+_RDIV = []
+
+
+def _rdiv_fn():
+    if not _RDIV:
+        _RDIV.append(z3.Function("rdiv", z3.RealSort(), z3.RealSort(), z3.RealSort()))
+    return _RDIV[0]
 
 
 def cancel(x, y):
